@@ -115,6 +115,21 @@ package bus
 //@   ensures[C16] err == nil <==> !at_lock(has(r.services, serviceID))
 //@   ensures[C16] err == nil ==> at_unlock(has(r.services, serviceID)) && at_unlock(r.services[serviceID]) == s
 //@   ensures[C16] forall k uint32 {at_unlock(has(r.services, k))} :: k != serviceID || err != nil ==> (at_unlock(has(r.services, k)) <==> at_lock(has(r.services, k))) && at_unlock(r.services[k]) == at_lock(r.services[k])
+// Terminate: the table is detached and replaced by an empty one inside one write-locked critical
+// section, so every service becomes unreachable at once, before the first termination hook runs.
+//@ interface (s ServiceReceiver) Terminate() (err error)
+//@   trusted
+//@   modifies everything
+//@ func (r *Router) Terminate() (err error)
+//@   tags C16
+//@   requires !r.RWMutex.lockw && r.RWMutex.lockr == 0
+//@   modifies everything
+//@   ensures[C16] !r.RWMutex.lockw && r.RWMutex.lockr == 0
+//@   ensures[C16] forall k uint32 {at_unlock(has(r.services, k))} :: !at_unlock(has(r.services, k))
+//@   private services[*]
+//@   loop 1:
+//@     invariant !r.RWMutex.lockw && r.RWMutex.lockr == 0 && services != nil
+//@     invariant forall k uint32 {has(services, k)} :: has(services, k) ==> services[k] != nil
 //@ func (r *Router) Remove(serviceID uint32) (err error)
 //@   tags C16 C04
 //@   requires !r.RWMutex.lockw && r.RWMutex.lockr == 0
